@@ -43,23 +43,37 @@ def setup():
 
     def f_enc(orig):
         def _encode_constraint(self, constraint):
-            before = len(self._clauses)
+            # bookkeeping on private state: whatever goes wrong here is the monitor's trouble, never the solver's
+            try:
+                before = len(self._clauses)
+            except Exception:
+                before = None
             r = orig(self, constraint)
-            d = _l2["enc"].setdefault(id(constraint), [0, 0])
-            d[0] += 1
-            d[1] += len(self._clauses) - before
+            try:
+                d = _l2["enc"].setdefault(id(constraint), [0, 0])
+                d[0] += 1
+                if before is not None:
+                    d[1] += len(self._clauses) - before
+            except Exception:
+                pass
             return r
 
         return _encode_constraint
 
     def f_prop(orig):
         def _propagate_constraint(self, constraint, domains):
-            before = sum(len(d) for d in domains.values())
+            try:
+                before = sum(len(d) for d in domains.values())
+            except Exception:
+                before = None
             r = orig(self, constraint, domains)
-            d = _l2["prop"].setdefault(id(constraint), [0, 0])
-            d[0] += 1
-            if r is False or sum(len(x) for x in domains.values()) < before:
-                d[1] += 1
+            try:
+                d = _l2["prop"].setdefault(id(constraint), [0, 0])
+                d[0] += 1
+                if r is False or (before is not None and sum(len(x) for x in domains.values()) < before):
+                    d[1] += 1
+            except Exception:
+                pass
             return r
 
         return _propagate_constraint
